@@ -275,3 +275,57 @@ pub mod branch_node {
         builder.finish().as_slice().to_vec()
     }
 }
+
+// ------------------------------------------------------------------------------------------------
+// The segmented log (`seglog`) and the rollback delta codec, driven directly on a scratch directory.
+
+/// The real `SegmentedLog` behind plain integers.
+pub struct SegLogSim {
+    log: crate::seglog::SegmentedLog,
+}
+
+impl SegLogSim {
+    /// `seglog::open`: the log and the records handed to the callback, in order.
+    pub fn open(
+        dir: &std::path::Path,
+        prefix: &str,
+        max_segment_size: u64,
+        start_live: u64,
+        end_live: u64,
+    ) -> anyhow::Result<(Self, Vec<(u64, Vec<u8>)>)> {
+        let fd = std::sync::Arc::new(std::fs::File::open(dir)?);
+        let mut records = Vec::new();
+        let log = crate::seglog::open(
+            dir.to_path_buf(),
+            fd,
+            prefix.to_string(),
+            max_segment_size,
+            start_live.into(),
+            end_live.into(),
+            |id, payload| {
+                records.push((id.0, payload.to_vec()));
+                Ok(())
+            },
+        )?;
+        Ok((SegLogSim { log }, records))
+    }
+
+    pub fn append(&mut self, data: &[u8]) -> anyhow::Result<u64> {
+        self.log.append(data).map(|id| id.0)
+    }
+
+    pub fn prune_oldest(&mut self, new_start_live: u64) -> std::io::Result<()> {
+        self.log.prune_oldest(new_start_live.into())
+    }
+
+    pub fn prune_recent(&mut self, new_end_live: u64) -> std::io::Result<()> {
+        self.log.prune_recent(new_end_live.into())
+    }
+
+    pub fn live_range(&self) -> (u64, u64) {
+        let (s, e) = self.log.live_range();
+        (s.0, e.0)
+    }
+}
+
+pub use crate::rollback::verif::{delta_decode, delta_encode, rollback_read};
